@@ -63,7 +63,7 @@ type BatchSpec struct {
 	Stats    bool    `json:"stats"`  // call the public Producer.GetAndResetStats() before this batch
 	// AllocFail: the producer's allocator starts failing (panicking, like the repository's LimitedAllocator) when the
 	// first record of this batch is handed to the IPC writer, and recovers after the call: a fault INSIDE Produce
-	AllocFail bool `json:"allocfail"`
+	AllocFail int `json:"allocfail"` // k > 0: from the k-th record of this batch on
 }
 
 // failAlloc wraps the producer's allocator; while fail is set every request for more memory panics.
@@ -618,7 +618,7 @@ func RunStream(em *Emitter, tr int, st *Stream) { RunStreamCapture(em, tr, st, n
 
 func RunStreamCapture(em *Emitter, tr int, st *Stream, capt *Capture) {
 	for _, b := range st.Batches {
-		if b.AllocFail && em.SW != nil {
+		if b.AllocFail > 0 && em.SW != nil {
 			// a fault inside Produce is not a step of Stream.tla: such streams are not validated against it
 			sw := em.SW
 			em.SW = nil
@@ -765,8 +765,14 @@ func RunStreamCapture(em *Emitter, tr int, st *Stream, capt *Capture) {
 		}
 		ob.evs = nil
 		ob.onRecord = nil
-		if bs.AllocFail {
-			ob.onRecord = func() { fa.fail = true }
+		if bs.AllocFail > 0 {
+			seen := 0
+			ob.onRecord = func() {
+				seen++
+				if seen >= bs.AllocFail {
+					fa.fail = true
+				}
+			}
 		}
 		bar, oc, msg := encode(p, in)
 		fa.fail = false
